@@ -178,5 +178,7 @@ func compare(criteriaWithWeights *model.WeightedCriteria, a1, a2 *model.Alternat
 func (m *Majority) ParseParams(dm *model.DecisionMaker) interface{} {
 	var params MajorityHeuristicParams
 	utils.DecodeToStruct(dm.MethodParameters, &params)
+	// every declared criterion needs its weight, whether or not a bias later removes the criterion
+	dm.Criteria.ZipWithWeights(&params.Weights)
 	return params
 }
